@@ -124,6 +124,10 @@ Definition oto_step_side (s : bool) (o : oto) (op : oto_op) : oto * res val :=
   if s then let '(o', r) := oto_step (oto_swap o) op in (oto_swap o', r) else oto_step o op.
 Definition oto_side (s : bool) (o : oto) : oto := if s then oto_swap o else o.
 
+Definition dict_eqb_unordered (a b : dict) : bool :=
+  Nat.eqb (length a) (length b) &&
+  forallb (fun p => match d_get b (fst p) with Some v => Nat.eqb v (snd p) | None => false end) a.
+
 (* several instances; values are immutable here, so independence is built in
    and is CHECKED on the code by observing every instance after every step *)
 Inductive oto_hop :=
@@ -131,7 +135,15 @@ Inductive oto_hop :=
 | HCopy (i : nat) (s : bool)                    (* x.copy(), OneToOne(x), copy.copy(x) with x = side s of instance i *)
 | HOp (i : nat) (s : bool) (op : oto_op)
 | HUpdFrom (ior : bool) (i : nat) (s : bool) (j : nat) (t : bool)    (* x.update(y) / x |= y *)
-| HFromkeys (keys : list nat) (v : nat).        (* OneToOne.fromkeys(keys, v): cls() then o[k] = v for each key *)
+| HFromkeys (keys : list nat) (v : nat)         (* OneToOne.fromkeys(keys, v): cls() then o[k] = v for each key *)
+| HDeepcopy (i : nat) (s : bool)                (* copy.deepcopy(x) *)
+| HEq (i : nat) (s : bool) (j : nat) (t : bool).        (* x == y  (inherited dict.__eq__) *)
+
+(* copy.deepcopy(x) as the copy protocol + the methods above produce it: the copy
+   of x.inv is filled first (through __setitem__, which also fills the new
+   forward dict), then the forward items are re-assigned in place: the new
+   forward dict is in the order of x.inv, the new inverse in the order of x *)
+Definition oto_deepcopy (x : oto) : oto := mkOto (flip (o_inv x)) (flip (o_fwd x)).
 
 Definition fromkeys_pairs (keys : list nat) (v : nat) : list kv := map (fun k => (k, v)) keys.
 
@@ -170,6 +182,17 @@ Definition oto_hstep (h : list oto) (hop : oto_hop) : list oto * res val :=
       let kvs := fromkeys_pairs keys v in
       if existsb kv_unhashable kvs then (h, Raise TypeError)
       else (h ++ [oto_update (mkOto [] []) kvs], Ok VNone)
+  | HDeepcopy i s =>
+      match nth_error h i with
+      | Some o => (h ++ [oto_deepcopy (oto_side s o)], Ok VNone)
+      | None => (h, Raise BadIndex)
+      end
+  | HEq i s j t =>
+      match nth_error h i, nth_error h j with
+      | Some o, Some o2 =>
+          (h, Ok (VBool (dict_eqb_unordered (o_fwd (oto_side s o)) (o_fwd (oto_side t o2)))))
+      | _, _ => (h, Raise BadIndex)
+      end
   end.
 
 (* public view of an instance: list(o.items()), list(o.inv.items()), o.inv.inv is o *)
@@ -392,10 +415,6 @@ Inductive fd_op :=
 (* dict.update on a plain copy *)
 Definition d_update (d : dict) (kvs : list kv) : dict :=
   fold_left (fun d p => d_set d (fst p) (snd p)) kvs d.
-
-Definition dict_eqb_unordered (a b : dict) : bool :=
-  Nat.eqb (length a) (length b) &&
-  forallb (fun p => match d_get b (fst p) with Some v => Nat.eqb v (snd p) | None => false end) a.
 
 Section FrozenDict.
   (* oracle: hash((k, v)) of the python tuple, supplied by the run *)
